@@ -1,7 +1,7 @@
 """C16 - symmetry groups are proper point groups; orientation reduction is canonical.
 
 Specification: specs/SymGroup.tla (configurations SymGroup_q / _t / _cache / _cache3 / _ties / _conc / _conct /
-_early / _hkl500 / _blocks).
+_early / _hkl500 / _wide / _blocks).
 
 Binding (DESIGN.md section 5, C16):
   mode B  every sequence of named-group calls TLC explores (symcache hit / miss) is replayed against
@@ -25,6 +25,15 @@ Binding (DESIGN.md section 5, C16):
           compared with the specification's result for that start; the property clauses (member of the orbit,
           canonical, idempotent, metric kept, same indexed lattice; hkl: lexicographic maximum of the orbit)
           are re-evaluated on the *real* outputs in exact integer arithmetic;
+  mode A  the documented range of the key, |h| < 1000, beyond the lexicographic domain (SymGroup_wide.cfg): static,
+          seeded and power-of-two boundary hkl with entries 500..999 (511 / 512 / 513, 767 .. 769, 998, 999 in every
+          position with either sign) x every group element applied beforehand, handed over as int64 / float64 /
+          int32 array and compared with the specification's scan for that start (exact, key ties included);
+          clauses on the real outputs: member of the orbit, a largest-key member, idempotent, the int32 / float64
+          answer is the int64 answer (specification KeyFits32: key and intermediates of the pinned base stay inside
+          32 bit, the STARTING key is computed in the caller's integer type), and where ONE orbit member has the
+          largest pinned key (h*1000 + k)*1000 + l - in particular where the key is injective on the orbit,
+          HklKeyMax - every start returns that member (canonical WITHIN the orbit);
   mode A  hkl LISTS (specification mode l: find_uniq_hkls as it handles a 3 x n array - one pass per operator over
           all columns, mask per column): every list of 1 .. ListMax columns over ListPool, column j turned by its
           own group element, every start ONE real call with the whole array (int64 / float64 / int32; C / Fortran /
@@ -46,7 +55,10 @@ Binding (DESIGN.md section 5, C16):
           the largest-trace member of its own orbit; grid_index_parallel.uniq_grain_list with 1 .. 600 (3000) images
           of K pairwise distinct orientations in seeded order - K grains, each found as often as it was handed in;
   plus    harness-side families where the model is covariant: hkl arrays of 1 .. 1000 seeded columns with
-          entries up to 499 per dtype (expectation: lexicographic maximum, python / int64); float
+          entries up to 499 per dtype (expectation: lexicographic maximum, python / int64) and ONE set of ~220
+          columns with entries 500..999 per group handed over as int64, int32 and float64 (expectation where one
+          orbit member has the largest pinned key: that member, from every start; everywhere: in the orbit, largest
+          key, idempotent, same answer for every dtype); a seventh of the columns of the long lists are of that range; float
           orientations of conforming cells scaled 0.25 x, 1 x, 100 x (1 A .. 1e3 A) handed over as array / nested
           list / Fortran / strided array / with func=np.trace / debug=1; exact tie orientations turned by
           0 .. 1e-3 rad (near ties: canonical not judged, every other clause is); the users
@@ -54,9 +66,12 @@ Binding (DESIGN.md section 5, C16):
           orientations (far-apart grain stays separate, alias trigonalP) and (thorough: the import costs 25 s)
           sinograms.point_by_point.initializer + idxpoint.
 
-Domain of the hkl clauses: |h|, |k|, |l| <= 499 over the whole orbit (beyond, two orbit members can share the
-packed key: SymGroup_hkl500.cfg) and int64 / int32 / float64 arrays; 500..999, int16 and float32 input are
-counted under notes["observations"], never judged.
+Domain of the hkl clauses: int64 / int32 / float64 arrays with |h|, |k|, |l| <= 999 (the documented range of the
+key).  Orbit within 499: the lexicographic maximum.  Beyond (two orbit members can share the packed key:
+SymGroup_hkl500.cfg): in the orbit / largest key / idempotent / dtype independent always, "the same member from
+every start" where the largest pinned key is attained once (decided orbit by orbit in exact integers here and in
+the specification); orbits with a shared largest key, int16 and float32 input are counted under
+notes["observations"], never judged.
 
 Findings
   C16-find-uniq-u-trace-tie : exact trace ties make find_uniq_u starting-point dependent (F12).
@@ -806,16 +821,50 @@ def judge_h(case, real, V):
                     (name, case["hkls"][j], s_ + 1, [int(v) for v in outs[s_][:, j]] if outs else None,
                      res[j][s_] if s_ < len(res[j]) else None), case)
     # property on the real outputs
+    starts_idx = [{} for _ in range(n)]            # orbit member -> number of a start that is this member
+    for s_, o in enumerate(grp.group):
+        st_ = np.dot(np.round(o).astype(int), hk)
+        for j in range(n):
+            starts_idx[j].setdefault(tuple(int(x) for x in st_[:, j]), s_)
     for j in range(n):
         h = case["hkls"][j]
         orb = set(tuple(mv(o, h)) for o in G)
         col = set(tuple(int(v) for v in o_[:, j]) for o_ in outs)
         if not col <= orb:
             report_clause(V, name, "InOrbit", "%s: find_uniq_hkls(%r) leaves the orbit" % (name, h), case, G)
+        inlex = max(abs(x) for v in orb for x in v) <= 499
+        # the pinned key of the specification (HklKey, base 1000) in python integers: beyond 499 the clause
+        # "same answer from every start" is judged where ONE orbit member has the largest key (HklKeyMax when
+        # the key is injective on the whole orbit, CanonicalIfUnique otherwise); a shared largest key (hexagonal
+        # (1,-3,500)) is counted, not judged
+        kmax = max(pinned_key(v) for v in orb)
+        maxers = [v for v in orb if pinned_key(v) == kmax]
+        inj = len(set(pinned_key(v) for v in orb)) == len(orb)
         if len(col) != 1:
-            report_clause(V, name, "HklCanonical", "%s: find_uniq_hkls(%r) depends on the starting member: %r" %
-                          (name, h, sorted(col)), case, G)
-        if max(abs(x) for v in orb for x in v) <= 499:
+            if inlex or len(maxers) == 1:
+                report_clause(V, name, "HklCanonical" if inlex else ("HklKeyMax" if inj else "CanonicalIfUnique"),
+                              "%s: find_uniq_hkls(%r) depends on the starting member: %r" % (name, h, sorted(col)), case, G)
+            else:
+                k_ = "find_uniq_hkls beyond 499, largest key shared by several orbit members: start-dependent hkl"
+                OBSERVATIONS[k_] = OBSERVATIONS.get(k_, 0) + 1
+        if not inlex:
+            WIDE_COUNTS["records"] += 1
+            WIDE_COUNTS["injective"] += 1 if inj else 0
+            WIDE_COUNTS["unique_max"] += 1 if len(maxers) == 1 else 0
+            if any(pinned_key(v) != kmax for v in col & orb):
+                report_clause(V, name, "AttainsMax" if len(maxers) > 1 else ("HklKeyMax" if inj else "CanonicalIfUnique"),
+                              "%s: find_uniq_hkls(%r) = %r, the orbit member(s) with the largest key (h*1000 + k)*1000 + l: "
+                              "%r" % (name, h, sorted(col), sorted(maxers)), case, G)
+        # idempotent: every result is itself a start (all orbit members are); reducing it again returns it
+        for s_, o_ in enumerate(outs):
+            v = tuple(int(x) for x in o_[:, j])
+            if v in orb:
+                s2 = starts_idx[j].get(v)
+                if s2 is not None and tuple(int(x) for x in outs[s2][:, j]) != v:
+                    report_clause(V, name, "Idempotent", "%s: find_uniq_hkls(%r) = %r, and reducing that again gives %r" %
+                                  (name, list(mv(G[s_], h)), list(v), [int(x) for x in outs[s2][:, j]]), case, G)
+                    break
+        if inlex:
             # where the packed key is an order isomorphism the answer is the LEXICOGRAPHIC maximum (python
             # tuple order): an expectation that does not mention the base of the key
             lmax = max(orb)
@@ -834,6 +883,14 @@ def judge_h(case, real, V):
 # ---- hkl columns with large entries, input kinds (harness-side family: every column is reduced on its own
 # ---- by find_uniq_hkls, the specification's single-column scan covers each of them) ------------------
 
+WIDE_COUNTS = {"records": 0, "injective": 0, "unique_max": 0}      # specification hkl beyond 499 (SymGroup_wide.cfg)
+
+
+def pinned_key(v):
+    """the specification's HklKey: hklmax with the pinned base 1000, python integers (no width)"""
+    return (int(v[0]) * 1000 + int(v[1])) * 1000 + int(v[2])
+
+
 HK_JUDGED = ("int64", "int32", "float64")      # 999 999 999 < 2^31, and exact in a double
 HK_OBSERVED = ("int16", "float32")             # the packed key overflows / loses bits: undocumented input kinds
 
@@ -846,6 +903,42 @@ def orbit_columns(G, hk):
     key = (orb[:, 0, :] * 4096 + orb[:, 1, :]) * 4096 + orb[:, 2, :]
     idx = np.argmax(key, axis=0)
     return orb, orb[idx, :, np.arange(hk.shape[1])].T
+
+
+def key_columns(orb, pairs=True):
+    """orb: g x 3 x n (int64, all orbit members of n columns).  Per column, under the specification's pinned key
+    (h*1000 + k)*1000 + l in int64 (|entries| <= 1998: |key| < 2^31): the member with the largest key, whether
+    that largest key belongs to ONE distinct member, whether the key is injective on the whole orbit (pairs)"""
+    key = (orb[:, 0, :] * 1000 + orb[:, 1, :]) * 1000 + orb[:, 2, :]
+    n = orb.shape[2]
+    best = orb[np.argmax(key, axis=0), :, np.arange(n)].T
+    ismax = key == key.max(axis=0)[None, :]
+    asbest = (orb == best[None, :, :]).all(axis=1)
+    uniq = ~(ismax & ~asbest).any(axis=0)
+    inj = None
+    if pairs:
+        samekey = key[:, None, :] == key[None, :, :]
+        samemem = (orb[:, None, :, :] == orb[None, :, :, :]).all(axis=2)
+        inj = ~(samekey & ~samemem).any(axis=(0, 1))
+    return best, uniq, inj, key.max(axis=0)
+
+
+POW2_MAGS = (127, 128, 129, 255, 256, 257, 499, 500, 501, 511, 512, 513, 767, 768, 769, 998, 999)
+
+
+def boundary_hkls(rng, lo, hi):
+    """magnitude x integer width: the magnitudes around the powers of two (where a packed key of some base leaves
+    a 16 / 32 bit integer or the mantissa of a float) and the ends of the two domains (499 / 500, 999), in every
+    position, with either sign; the other two entries small and seeded"""
+    cols = []
+    for m in POW2_MAGS:
+        if lo <= m <= hi:
+            for pos in range(3):
+                for sg in (1, -1):
+                    h = [int(v) for v in rng.randint(-3, 4, size=3)]
+                    h[pos] = sg * m
+                    cols.append(h)
+    return cols
 
 
 def seeded_hkls(rng, n, lo, hi):
@@ -873,11 +966,19 @@ def seeded_hkls(rng, n, lo, hi):
 
 
 def judge_hbig(case, real, V):
-    """case: name, hkls (n triples), dtype.  Every group element is applied beforehand to the whole array; the
-    real find_uniq_hkls reduces the 3 x n array of the given dtype.  Judged for int64 / int32 / float64: every
-    result column is in the orbit of its column (any magnitude up to 999), and, for columns whose orbit stays
-    within 499, it is the lexicographic maximum of that orbit - from every start.  int16 / float32 input and
-    columns beyond 499 are outside the domain of the hkl clauses (SymGroup_hkl500.cfg): counted, not judged."""
+    """case: name, hkls (n triples with entries up to 999 = the documented range of the key), dtype.  Every group
+    element is applied beforehand to the whole array; the real find_uniq_hkls reduces the 3 x n array of the given
+    dtype.  Judged for int64 / int32 / float64, from every start:
+      every result column is in the orbit of its column and has the largest pinned key of that orbit
+        (specification: InOrbit, AttainsMax);
+      reducing a result again returns it (Idempotent);
+      columns whose orbit stays within 499: the result is the lexicographic maximum of the orbit (HklLexMax);
+      columns beyond 499 (up to 999): where ONE orbit member has the largest pinned key - in particular where the key
+        is injective on the orbit - every start returns that member (HklKeyMax / CanonicalIfUnique: canonical WITHIN
+        the orbit); a shared largest key (hexagonal (1,-3,500)) is counted, not judged;
+      int32 / float64 input gives the int64 answer column by column, ties included (KeyFits32: the width of the
+        caller's array does not matter).
+    int16 / float32 input is outside the domain of the hkl clauses: counted, not judged."""
     import warnings
     name = case["name"]
     grp = real.obj[name]
@@ -888,18 +989,30 @@ def judge_hbig(case, real, V):
     dtype = case["dtype"]
     hk = np.array(case["hkls"], dtype=np.int64).T.reshape(3, -1)
     n = hk.shape[1]
+    if np.abs(hk).max() > 999:
+        raise common.MachineryError("hbig: a column leaves the documented range of the key")
     orb, lex = orbit_columns(G, hk)
+    kbest, kuniq, kinj, kmax = key_columns(orb)
     indom = np.abs(orb).max(axis=(0, 1)) <= 499
+    if not np.array_equal(kbest[:, indom], lex[:, indom]) or not kinj[indom].all():
+        raise common.MachineryError("hbig: within 499 the pinned key is not the lexicographic order")
     judged = dtype in HK_JUDGED
+
+    def call(arg):
+        with warnings.catch_warnings():
+            warnings.simplefilter("ignore")
+            with np.errstate(all="ignore"):
+                return np.asarray(sym_u.find_uniq_hkls(arg, grp))
+
+    def wellformed(r):
+        return r.shape == (3, n) and np.all(np.isfinite(r.astype(float))) and np.all(r == np.round(r))
+
     outs = []
     for s_ in range(len(G)):
         start = orb[s_]
         arg = start.astype(dtype)
         try:
-            with warnings.catch_warnings():
-                warnings.simplefilter("ignore")
-                with np.errstate(all="ignore"):
-                    r = np.asarray(sym_u.find_uniq_hkls(arg, grp))
+            r = call(arg)
         except Exception as e:
             if judged:
                 V.violation(key + ("raises",), "%s: find_uniq_hkls(%s array 3x%d) raises %s: %s" %
@@ -908,21 +1021,49 @@ def judge_hbig(case, real, V):
                 ok_ = "find_uniq_hkls %s: raises" % dtype
                 OBSERVATIONS[ok_] = OBSERVATIONS.get(ok_, 0) + 1
             return
-        if r.shape != (3, n) or not np.all(np.isfinite(r.astype(float))) or not np.all(r == np.round(r)):
+        if not wellformed(r):
             if judged:
                 V.violation(key + ("shape",), "%s: find_uniq_hkls(%s array 3x%d) returns shape %r / non-integers" %
                             (name, dtype, n, r.shape), case)
                 return
             OBSERVATIONS["find_uniq_hkls %s: malformed result" % dtype] = OBSERVATIONS.get("find_uniq_hkls %s: malformed result" % dtype, 0) + 1
             return
-        outs.append(np.round(r).astype(np.int64))
+        ri = np.round(r).astype(np.int64)
+        outs.append(ri)
+        if judged and (s_ % 5 == 0 or s_ == len(G) - 1):
+            # idempotent: the result handed back in the same dtype
+            try:
+                r2 = call(ri.astype(dtype))
+            except Exception as e:
+                V.violation(key + ("raises",), "%s: find_uniq_hkls(its own %s result) raises %s: %s" %
+                            (name, dtype, type(e).__name__, e), case)
+                return
+            if not wellformed(r2) or not np.array_equal(np.round(r2).astype(np.int64), ri):
+                j = int(np.argmax((np.round(r2).astype(np.int64) != ri).any(axis=0))) if wellformed(r2) else 0
+                report_clause(V, name, "Idempotent", "%s: find_uniq_hkls(%s array) is not idempotent: %r -> %r -> %r" %
+                              (name, dtype, [int(v) for v in start[:, j]], [int(v) for v in ri[:, j]],
+                               [float(v) for v in np.asarray(r2, dtype=float)[:, j]] if wellformed(r2) else "malformed"), case, G)
+        if judged and dtype != "int64":
+            # the width of the caller's array does not matter (ties included: same scan, same keys)
+            r64 = call(start.copy())
+            if wellformed(r64) and not np.array_equal(np.round(r64).astype(np.int64), ri):
+                j = int(np.argmax((np.round(r64).astype(np.int64) != ri).any(axis=0)))
+                report_clause(V, name, "KeyFits32", "%s: find_uniq_hkls(%r) = %r for an %s array, %r for an int64 array "
+                              "(start: group element %d applied to %r)" %
+                              (name, [int(v) for v in start[:, j]], [int(v) for v in ri[:, j]], dtype,
+                               [int(v) for v in np.round(r64).astype(np.int64)[:, j]], s_ + 1, [int(v) for v in hk[:, j]]), case, G)
     inorb = np.ones(n, bool)
     islex = np.ones(n, bool)
+    iskey = np.ones(n, bool)
+    atmax = np.ones(n, bool)
     same = np.ones(n, bool)
     for ri in outs:
         inorb &= (orb == ri[None, :, :]).all(axis=1).any(axis=0)
         islex &= (ri == lex).all(axis=0)
+        iskey &= (ri == kbest).all(axis=0)
+        atmax &= ((ri[0] * 1000 + ri[1]) * 1000 + ri[2]) == kmax
         same &= (ri == outs[0]).all(axis=0)
+    wide = ~indom
     if judged:
         if not inorb.all():
             j = int(np.argmin(inorb))
@@ -937,16 +1078,33 @@ def judge_hbig(case, real, V):
                           "member: %r (%d of %d columns differ)" %
                           (name, dtype, n, [int(v) for v in hk[:, j]], got, [int(v) for v in lex[:, j]], int(bad.sum()), n),
                           case, G)
-        out_dom = ~indom
-        if out_dom.any():
-            k = "find_uniq_hkls columns beyond 499 (outside the domain): reduced / start-dependent"
-            old = OBSERVATIONS.get(k, [0, 0])
-            OBSERVATIONS[k] = [old[0] + int(out_dom.sum()), old[1] + int((out_dom & ~same).sum())]
+        bad = wide & kuniq & ~iskey
+        if bad.any():
+            j = int(np.argmax(bad))
+            got = sorted(set(tuple(int(v) for v in ri[:, j]) for ri in outs))
+            report_clause(V, name, "HklKeyMax" if kinj[j] else "CanonicalIfUnique",
+                          "%s: find_uniq_hkls(%s array, %d columns, entries up to 999): the members of the orbit of %r reduce "
+                          "to %r depending on the one handed over; the one orbit member with the largest key "
+                          "(h*1000 + k)*1000 + l is %r (key %s on this orbit; %d of %d such columns differ)" %
+                          (name, dtype, n, [int(v) for v in hk[:, j]], got, [int(v) for v in kbest[:, j]],
+                           "injective" if kinj[j] else "not injective, largest key attained once",
+                           int(bad.sum()), int((wide & kuniq).sum())), case, G)
+        bad = wide & ~kuniq & inorb & ~atmax
+        if bad.any():
+            j = int(np.argmax(bad))
+            report_clause(V, name, "AttainsMax", "%s: find_uniq_hkls(%s array): hkl %r is reduced to a member of its orbit "
+                          "whose key is not the largest of the orbit (%d)" %
+                          (name, dtype, [int(v) for v in hk[:, j]], int(kmax[j])), case, G)
+        if wide.any():
+            k = "find_uniq_hkls columns beyond 499: judged (largest key attained once) / key injective / shared largest key / of those start-dependent"
+            old = OBSERVATIONS.get(k, [0, 0, 0, 0])
+            OBSERVATIONS[k] = [old[0] + int((wide & kuniq).sum()), old[1] + int((wide & kinj).sum()),
+                               old[2] + int((wide & ~kuniq).sum()), old[3] + int((wide & ~kuniq & ~same).sum())]
     else:
         k = "find_uniq_hkls %s input (undocumented kind): columns / not the int64 answer" % dtype
         old = OBSERVATIONS.get(k, [0, 0])
         OBSERVATIONS[k] = [old[0] + n, old[1] + int((~(islex & inorb) & indom).sum())]
-    return int(indom.sum())
+    return int(indom.sum()), int((wide & kuniq).sum()), int((wide & kinj).sum())
 
 
 # ---- hkl LISTS: the array route of find_uniq_hkls (specification mode l) and its scaling in the length ----
@@ -988,12 +1146,18 @@ def call_hkls(arg, grp):
 
 def lexmax_columns(G, hk):
     """independent definition, exact int64, one column at a time in the mathematical sense (vectorised over the
-    columns): the lexicographically largest member of every column's orbit and whether the whole orbit stays
-    within 499.  (|entries| <= 1998 < 2048: (h*4096 + k)*4096 + l orders the triples lexicographically.)"""
+    columns): the expected member of every column's orbit and whether the column is judged.  Where the whole orbit
+    stays within 499: the lexicographically largest member (|entries| <= 1998 < 2048: (h*4096 + k)*4096 + l orders
+    the triples lexicographically).  Columns with entries up to 999 whose orbit leaves 499 (the documented range of
+    the key): the member with the largest pinned key (h*1000 + k)*1000 + l, judged when ONE distinct member has it
+    (specification: HklKeyMax / CanonicalIfUnique)."""
     hk = hk.astype(np.int64)
     n = hk.shape[1]
     best = hk.copy()
     bkey = np.full(n, -(1 << 62), dtype=np.int64)
+    kbest = hk.copy()
+    kkey = np.full(n, -(1 << 62), dtype=np.int64)
+    ktie = np.zeros(n, bool)
     amax = np.zeros(n, dtype=np.int64)
     for o in G:
         cand = np.empty((3, n), dtype=np.int64)
@@ -1008,7 +1172,18 @@ def lexmax_columns(G, hk):
         m = key > bkey
         best[:, m] = cand[:, m]
         bkey[m] = key[m]
-    return best, amax <= 499
+        k1000 = (cand[0] * 1000 + cand[1]) * 1000 + cand[2]
+        ktie |= (k1000 == kkey) & (cand != kbest).any(axis=0)        # another member with the largest key so far
+        m = k1000 > kkey
+        kbest[:, m] = cand[:, m]
+        kkey[m] = k1000[m]
+        ktie[m] = False
+    inlex = amax <= 499
+    if not np.array_equal(best[:, inlex], kbest[:, inlex]) or ktie[inlex].any():
+        raise common.MachineryError("lexmax_columns: within 499 the pinned key is not the lexicographic order")
+    widej = ~inlex & (np.abs(hk).max(axis=0) <= 999 if n else inlex) & ~ktie
+    best[:, widej] = kbest[:, widej]
+    return best, inlex | widej
 
 
 def turned_columns(G, hk, g):
@@ -1081,9 +1256,10 @@ LONG_FAMILIES = ("mixed", "canonical", "constant")
 
 def long_columns(rs, n, npool):
     """n seeded columns (3 x n int64) and, per column, the index of the specification's pool entry it is (-1: a
-    seeded column that is not in the pool): two sixths pool entries, uniform within 249 (every orbit stays within
-    499), uniform within 499, small, 'small h, large +-k' (what a wrong packing base mixes up)"""
-    kind = rs.randint(0, 6, size=n)
+    seeded column that is not in the pool): two sevenths pool entries, uniform within 249 (every orbit stays within
+    499), uniform within 499, small, 'small h, large +-k' (what a wrong packing base mixes up), one entry of
+    magnitude 500..999 (the documented range of the key beyond the lexicographic domain: magnitude x integer width)"""
+    kind = rs.randint(0, 7, size=n)
     hk = np.zeros((3, n), dtype=np.int64)
     pidx = np.full(n, -1, dtype=np.int64)
     m = kind <= 1
@@ -1100,6 +1276,14 @@ def long_columns(rs, n, npool):
     hk[0, m] = rs.randint(-3, 4, size=int(m.sum()))
     hk[1, m] = b
     hk[2, m] = -b + rs.randint(0, 2, size=int(m.sum()))
+    m = kind == 6                                  # the documented range of the key beyond the lexicographic domain:
+    nm = int(m.sum())                              # one entry +-(500..999) or around 512 / 768, the others up to 999
+    w = rs.randint(-999, 1000, size=(3, nm))
+    w[:, ::2] = rs.randint(-9, 10, size=(3, nm))[:, ::2]
+    big = np.where(rs.randint(0, 3, size=nm) == 0, rs.choice([511, 512, 513, 767, 768, 769, 998, 999], size=nm),
+                   rs.randint(500, 1000, size=nm)) * rs.choice([-1, 1], size=nm)
+    w[rs.randint(0, 3, size=nm), np.arange(nm)] = big
+    hk[:, m] = w
     return hk, pidx
 
 
@@ -1168,7 +1352,8 @@ def judge_hlong(case, real, V):
                           (what, j, "an hkl of the specification's pool" if fromp[j] else "seeded",
                            [int(v) for v in start[:, j]], [int(v) for v in r[:, j]],
                            "specification (list law: per column, independent of length and position)" if fromp[j]
-                           else "lexicographically largest member of its orbit", [int(v) for v in lex[:, j]],
+                           else "lexicographically largest member of its orbit (beyond 499: the one member with the "
+                           "largest key (h*1000 + k)*1000 + l)", [int(v) for v in lex[:, j]],
                            int(wrong.sum()), n, j, int(n - 1 - np.argmax(wrong[::-1])),
                            "; the same column ALONE in a list of one is reduced correctly: the answer depends on the "
                            "length of the list / the position in it" if alone_ok else ""), case, G)
@@ -2061,6 +2246,39 @@ def _run(chk, real, V, tier, replay):
         chk.traces += len(rs)
         for r in rs:
             chk.case(("h", n, tuple(r["x0"])), nontrivial=r["x0"] != [0, 0, 0])
+    # ---- 2b. the documented range of the key beyond the lexicographic domain (SymGroup_wide.cfg) -----
+    # hkl with entries 500..999: static ones + seeded ones + seeded boundary magnitudes; every start of every hkl is
+    # replayed as int64 / float64 / int32 array against the specification's scan (exact, ties included)
+    rs_ = rng_for("widehkl")
+    wbig = seeded_hkls(rs_, 40 if thorough else 10, 500, 999)
+    wb = boundary_hkls(rs_, 500, 999)
+    wbig += wb if thorough else [wb[int(k_)] for k_ in rs_.choice(len(wb), size=8, replace=False)]
+    wrecords, _ = run_main_config(chk, "SymGroup_wide.cfg", real, V, WORKERS, False, 3000 if thorough else 900, cells_of,
+                                  bighkls=sorted(set(tuple(h) for h in wbig)))
+    wname = {}
+    for k_ in WIDE_COUNTS:
+        WIDE_COUNTS[k_] = 0                        # (records of the main configuration whose orbit leaves 499: not counted)
+    for r in wrecords:
+        if r["kind"] == "h":
+            wname.setdefault(r["name"], []).append(r)
+    for n, rs in wname.items():
+        rs.sort(key=lambda r: r["x0"])
+        for r in rs:
+            # the specification's own statement about the orbit against the harness's arithmetic (python integers)
+            orb_ = set(tuple(mv(o, r["x0"])) for o in (model_group.get(n) or real.mats[n] or []))
+            if orb_ and (r["norbit"] != len(orb_) or r["nscore"] != len(set(pinned_key(v) for v in orb_))):
+                if real.mats[n] == model_group.get(n):
+                    raise common.MachineryError("wide: orbit / key count of the specification differs from the harness (%s %r)"
+                                                % (n, r["x0"]))
+        case = {"kind": "h", "name": n, "hkls": [r["x0"] for r in rs], "res": [r["res"] for r in rs], "cells": cells_of(n)}
+        guarded(judge_h, case, real, V)
+        chk.traces += len(rs)
+        for r in rs:
+            chk.case(("hwide", n, tuple(r["x0"])))
+    chk.notes["hkl_beyond_499_specification_records"] = dict(WIDE_COUNTS)
+    if V.n() == 0 and (WIDE_COUNTS["injective"] < 50 or WIDE_COUNTS["unique_max"] == WIDE_COUNTS["records"]):
+        raise common.MachineryError("vacuity: the hkl beyond 499 of SymGroup_wide.cfg: %r (want injective orbits and at "
+                                    "least one shared largest key)" % (WIDE_COUNTS,))
     # list records (mode l): every start of every list is ONE call with the whole array
     lrecs = [r for r in records if r["kind"] == "l"]
     for r in lrecs:
@@ -2153,22 +2371,33 @@ def _run(chk, real, V, tier, replay):
 
     # ---- 4c. hkl arrays: large entries, many columns, input kinds ---------------------------------
     nbig = {}
+    nwide = {}
     sens = 0
     for n in NAMES:
         if real.mats[n] is None:
             continue
         rs_ = rng_for("hbig", n)
+        # magnitude x integer width: the documented range of the key is |h| < 1000.  ONE set of columns with entries
+        # 500..999 (seeded + the magnitudes around the powers of two in every position with either sign) is handed
+        # over in every judged dtype; the boundary magnitudes up to 499 join the columns of the lexicographic domain
+        wide = seeded_hkls(rs_, 300 if thorough else 120, 500, 999) + boundary_hkls(rs_, 500, 999)
+        wide[0] = [1, -3, 500]                               # the tie of SymGroup_hkl500.cfg (hexagonal, trigonal)
         plan = [("int64", 1000 if n != "cubic" or thorough else 600, 1, 499), ("int64", 1, 100, 499), ("int32", 200, 1, 499),
-                ("float64", 200, 1, 499), ("int16", 100, 30, 499), ("float32", 100, 17, 499), ("int64", 100, 500, 999),
-                ("int32", 60, 500, 999)]
+                ("float64", 200, 1, 499), ("int16", 100, 30, 499), ("float32", 100, 17, 499), ("int64", wide, 500, 999),
+                ("int32", wide, 500, 999), ("float64", wide, 500, 999)]
         for dtype, ncol, lo, hi in plan:
-            cols = seeded_hkls(rs_, ncol, lo, hi)
-            if hi > 499 and n in ("hexagonal", "trigonal"):
-                cols[0] = [1, -3, 500]                       # the tie of SymGroup_hkl500.cfg
+            if isinstance(ncol, list):
+                cols, ncol = ncol, len(ncol)
+            else:
+                cols = seeded_hkls(rs_, ncol, lo, hi)
+                if ncol > 1 and dtype in HK_JUDGED:
+                    cols = cols + boundary_hkls(rs_, lo, hi)
             case = {"kind": "hbig", "name": n, "dtype": dtype, "hkls": cols}
-            guarded(judge_hbig, case, real, V)
+            got = guarded(judge_hbig, case, real, V)
             key = "%s %s" % (dtype, "<=499" if hi <= 499 else "500..999")
-            nbig[key] = nbig.get(key, 0) + ncol
+            nbig[key] = nbig.get(key, 0) + len(cols)
+            if hi > 499 and isinstance(got, tuple):
+                nwide[n] = [nwide.get(n, [0, 0])[0] + got[1], nwide.get(n, [0, 0])[1] + got[2]]
             chk.case(("hbig", n, dtype, ncol, hi))
             chk.traces += 1
             if dtype == "int64" and hi <= 499 and ncol > 1:
@@ -2179,6 +2408,11 @@ def _run(chk, real, V, tier, replay):
                 alt = orb[np.argmax(k512, axis=0), :, np.arange(hk.shape[1])].T
                 sens += int((alt != lex).any(axis=0).sum())
     chk.notes["hkl_array_columns"] = nbig
+    chk.notes["hkl_columns_500_999_judged_canonical / key_injective"] = nwide
+    if V.n() == 0:
+        for n in NAMES:
+            if real.mats[n] is not None and nwide.get(n, [0, 0])[0] < 100:
+                raise common.MachineryError("vacuity: only %r columns beyond 499 of %s have one largest key" % (nwide.get(n), n))
     chk.notes["hkl_columns_sensitive_to_the_packing_base"] = sens
     if sens == 0 and V.n() == 0:
         raise common.MachineryError("vacuity: no seeded hkl column distinguishes the packing base")
@@ -2209,7 +2443,7 @@ def _run(chk, real, V, tier, replay):
         pk = sorted(pool)
         if pk:
             dom = lexmax_columns(Gm, np.array(pk, dtype=np.int64).T)[1]
-            pk = [h for h, d in zip(pk, dom) if d]           # the hkl clauses end at 499 over the whole orbit
+            pk = [h for h, d in zip(pk, dom) if d]           # (pool hkl: orbit within 499 / one largest key)
         if len(pk) < 10:
             raise common.MachineryError("vacuity: the specification reduced only %d hkl for %s" % (len(pk), n))
         for si, N in enumerate(sizes):
@@ -2346,7 +2580,8 @@ def _run(chk, real, V, tier, replay):
                 "named-group calls, every interleaving of two concurrent first calls (quick: each name against itself "
                 "+ 9 pairs; thorough: all 55 pairs), every exact UBI = conforming integer cell x rational rotation "
                 "|q|^2R(q) with quaternion components in -QMax..QMax, every hkl of the box and static + seeded hkl up "
-                "to 499, each from every group element applied beforehand; seeded: two-thread schedules, hkl arrays, "
+                "to 499 (SymGroup_wide.cfg: static + seeded + power-of-two boundary hkl with entries 500..999, as int64 / "
+                "float64 / int32 arrays), each from every group element applied beforehand; seeded: two-thread schedules, hkl arrays, "
                 "float orientations (scales, input kinds, perturbed ties), users; non-trivial = group of order > 1 / "
                 "hkl != 0 / call sequence longer than 1; hkl lists: every list of 1..ListMax columns over ListPool as "
                 "one array, and every emitted hkl scaled to lists of ListSizes columns (per-column expectation)")
@@ -2354,8 +2589,11 @@ def _run(chk, real, V, tier, replay):
     chk.assumptions = ["exact cases are integer UBIs (products of small integers are exact in double precision)",
                        "float orientations: when the two best traces of the orbit are closer than 1e-10 relative the "
                        "canonical clause is not judged (ties are decided in exact arithmetic only); every other clause is",
-                       "hkl clauses: entries up to 499 over the whole orbit, int64 / int32 / float64 arrays (beyond: the "
-                       "packed key is not injective, SymGroup_hkl500.cfg; int16 / float32: key overflows / loses bits)",
+                       "hkl clauses: int64 / int32 / float64 arrays with entries up to 999; the lexicographic maximum where "
+                       "the whole orbit stays within 499; beyond (the packed key is not injective on every orbit, "
+                       "SymGroup_hkl500.cfg) the same member from every start is required where ONE orbit member has the "
+                       "largest key of the pinned base 1000 (exact integers), orbits with a shared largest key are counted; "
+                       "int16 / float32: key overflows / loses bits, counted",
                        "long hkl lists: the columns are drawn from the hkl the specification reduced and from seeded "
                        "triples; the expectation per column is the specification's result / the exact lexicographic "
                        "maximum; numpy's BLAS runs on one thread in that section",
@@ -2455,6 +2693,16 @@ def selftest_new_families(real, urecs, grecs, fixed, rejected):
         sym_u.find_uniq_hkls = lambda hkls, grp: orig(hkls, grp, func=lambda h: sym_u.hklmax(h, 100))
         if not rejected(judge_hbig, hcase):
             raise common.MachineryError("selftest: find_uniq_hkls with packing base 100 not rejected")
+    finally:
+        sym_u.find_uniq_hkls = orig
+    # ---- magnitude x integer width: a key of base 2048 computed in the caller's int32 must be noticed beyond 511
+    wcase = {"kind": "hbig", "name": "monoclinic_a", "dtype": "int32", "hkls": boundary_hkls(rs_, 500, 999)}
+    if rejected(judge_hbig, wcase):
+        raise common.MachineryError("selftest: unperturbed int32 hkl array with entries 500..999 rejected")
+    try:
+        sym_u.find_uniq_hkls = lambda hkls, grp: orig(hkls, grp, func=lambda h: sym_u.hklmax(h, 2048))
+        if not rejected(judge_hbig, wcase):
+            raise common.MachineryError("selftest: find_uniq_hkls with a key that leaves int32 not rejected")
     finally:
         sym_u.find_uniq_hkls = orig
     # ---- near tie: a result between the two tying members must be noticed although the canonical clause is off
